@@ -4,6 +4,7 @@ import (
 	"bytes"
 	"errors"
 	"fmt"
+	"strconv"
 
 	"golang.org/x/crypto/blake2b"
 
@@ -49,7 +50,7 @@ func hashcomKey(i int) *hashcom.CommitmentKey {
 func hashcomMessages() [][]byte {
 	m := [][]byte{{}, {0x00}, {0xa5}, pattern(32), pattern(1024)}
 	if engine.Thorough() {
-		m = append(m, bytes.Repeat([]byte{0xff}, 32), pattern(4096), pattern(16384))
+		m = append(m, bytes.Repeat([]byte{0xff}, 32), pattern(4096), pattern(16384), pattern(32768))
 	}
 	return m
 }
@@ -76,6 +77,16 @@ func hashcomBody(x *engine.X) {
 	wi := x.Choose("wit", len(wits))
 	key, msg, wit := hashcomKey(ki), msgs[mi], wits[wi]
 	id := fmt.Sprintf("hashcom/k%d/m%d/w%d", ki, mi, wi)
+	// long messages: the message-bit enumeration is split into 16 slices (parallel subtrees); slice 0 also does
+	// everything else
+	chunks, chunk := 1, 0
+	if len(msg) >= 4096 {
+		chunks = 16
+		chunk = x.Choose("msgslice", chunks)
+		if chunk > 0 {
+			id += fmt.Sprintf("/slice%d", chunk)
+		}
+	}
 	lt := localTally{}
 	defer lt.flush(&hashcomTally)
 
@@ -95,8 +106,14 @@ func hashcomBody(x *engine.X) {
 	lt["accept-untouched"]++
 
 	// probe evaluates one altered tuple against the definition.
+	// (cases of messages above 4 KiB are counted but not entered into the distinct-case set: millions of keys)
+	keyed := len(msg) <= 4096
 	probe := func(what string, k *hashcom.CommitmentKey, c hashcom.Commitment, m []byte, w hashcom.Witness) {
-		x.Case(id + "/" + what)
+		if keyed {
+			x.Case(id + "/" + what)
+		} else {
+			x.Case("")
+		}
 		valid := refHashcom(k[:], m, w[:]) == [32]byte(c)
 		err := k.Open(c, m, w)
 		switch {
@@ -114,8 +131,15 @@ func hashcomBody(x *engine.X) {
 	}
 
 	// message: every single bit, and every single-byte length change
-	for b := 0; b < 8*len(msg); b++ {
-		probe(fmt.Sprintf("msg-bit%d", b), key, com, flipBit(msg, b), wit)
+	flipped := append([]byte{}, msg...)
+	for b := chunk * (8 * len(msg) / chunks); b < (chunk+1)*(8*len(msg)/chunks); b++ {
+		flipped[b/8] ^= 0x80 >> (b % 8)
+		probe("msg-bit"+strconv.Itoa(b), key, com, flipped, wit)
+		flipped[b/8] ^= 0x80 >> (b % 8)
+	}
+	if chunk > 0 {
+		x.Observe(id)
+		return
 	}
 	probe("msg-append00", key, com, append(append([]byte{}, msg...), 0x00), wit)
 	probe("msg-prepend00", key, com, append([]byte{0x00}, msg...), wit)
